@@ -25,6 +25,8 @@ def _cond(wn, c):
     from wntr.network import controls as ct
     t = c['t']
     if t == 'simtime':
+        if c.get('repeat'):
+            return ct.SimTimeCondition(wn, c['rel'], float(c['thr']), repeat=int(c['repeat']))
         return ct.SimTimeCondition(wn, c['rel'], float(c['thr']))
     if t == 'clock':
         return ct.TimeOfDayCondition(wn, c['rel'], float(c['thr']))
